@@ -316,7 +316,6 @@ func (e *Eng) freshResult(resT types.Type, c *ctx) Val {
 func (e *Eng) havocAll(st *State) {
 	e.havocAllHeaps(st, nil)
 	st.epoch++
-	st.tainted = true
 }
 
 // callFunc dispatches a call to a statically known function or method.
@@ -830,9 +829,6 @@ func shortName(n string) string {
 
 // havocPointee forgets what a pointer, slice or cell argument points to.
 func (e *Eng) havocPointee(st *State, v Val) {
-	if e.holdsRefs(v.GoT) {
-		st.tainted = true
-	}
 	switch v.K {
 	case KSlice:
 		var et types.Type = types.Typ[types.Uint8]
